@@ -36,6 +36,7 @@ fn main() {
 /// (cfg name, file below <ddnnife>/src, needle)
 const HOOK_PROBES: &[(&str, &str, &str)] = &[
     ("has_h3", "ddnnf/anomalies/config_creation.rs", "pub fn verif_set_sched_callback"),
+    ("verif_h7", "ddnnf/anomalies/t_wise_sampling.rs", "pub fn verif_t_indices"),
 ];
 
 fn probe_hooks() {
